@@ -108,6 +108,12 @@ def _mol(ctx, case):
     from stereomolgraph.graphs.smg import StereoMolGraph
 
     m = Chem.AddHs(Chem.MolFromSmiles(case["smiles"]))
+    if c12._unspecified_stereo(m):
+        # not one stereoisomer: RDKit itself still sees a potential stereo unit without a label (e.g. the interdependent
+        # ring carbon / exocyclic double bond of CC=C1OC(F)(OOCl)O1, which the isomer enumeration does not resolve);
+        # the annotation route then has nothing to agree with
+        ctx.count("skipped:not-one-stereoisomer")
+        return
     if AllChem.EmbedMolecule(m, randomSeed=case["eseed"]) != 0:
         ctx.count("skipped:embedding-failed")
         return
